@@ -72,7 +72,15 @@ func (c *Conn) maybeSend(now time.Time) (next time.Time) {
 				extra:     c.retryToken,
 			}
 			c.w.startProtectedLongHeaderPacket(pnumMaxAcked, p)
-			c.appendFrames(now, initialSpace, pnum, limit)
+			initialLimit := limit
+			if c.side == serverSide && c.loss.maxSendSize() < paddedInitialDatagramSize && initialLimit == ccOK {
+				// A datagram carrying an ack-eliciting Initial packet must be
+				// padded to 1200 bytes, which the anti-amplification limit
+				// does not permit: send only acknowledgements for now.
+				// https://www.rfc-editor.org/rfc/rfc9000.html#section-8.1-2
+				initialLimit = ccLimited
+			}
+			c.appendFrames(now, initialSpace, pnum, initialLimit)
 			if logPackets {
 				logSentPacket(c, packetTypeInitial, pnum, p.srcConnID, p.dstConnID, c.w.payload())
 			}
